@@ -17,6 +17,7 @@ int  sx_is_symbolic(long v);
 int  sx_is_live(const void *p);
 int  sx_lib_heap_count(void);
 void sx_leak_check(int allowed);
+void sx_leak_check_unreachable(void);	/* no live library heap block is unreachable from globals, stacks and registers */
 long sx_opt(const char *name, long dflt);
 
 /* threads */
